@@ -5,6 +5,8 @@ import common as C
 import wiregen as W
 
 BOUND_SLACK = 64 * 1024      # the property's "tens of kilobytes": allocation <= message size + 64 KiB
+LARGE = 4096                 # messages above this size: the property's "never megabytes" (allocation <= 1 MiB; they are <= 32 KiB)
+MEGABYTE = 1024 * 1024
 
 
 def case_bytes(case):
@@ -23,8 +25,10 @@ def oracle(case, impl_line):
     f = info.split()
     if len(f) >= 3 and f[0] == "A":
         alloc, size = int(f[1]), int(f[2])
-        if alloc > size + BOUND_SLACK:
+        if size <= LARGE and alloc > size + BOUND_SLACK:
             return "allocated %d bytes for a message of %d bytes (bound: size + %d)" % (alloc, size, BOUND_SLACK)
+        if size > LARGE and len(reqs) <= 50 and alloc > MEGABYTE:
+            return "allocated %d bytes (megabytes) for a message of %d bytes that yields %d requests" % (alloc, size, len(reqs))
     commits = [r for r in reqs if r.startswith("offset ")]
     if len(commits) > 1:
         return "more than one consumer-offset update for one message"
@@ -48,27 +52,44 @@ def nontrivial(case):
 
 
 def run(chk, failed):
-    n = 4000 if not chk.thorough else 150000
+    n = 3000 if not chk.thorough else 150000
+    nlarge = 40 if not chk.thorough else 1500
     cases, tags = [], []
     for ln in C.read_corpus(chk.pid):
         cases.append(ln)
         tags.append(["corpus", "corpus"])
+    # exhaustive sweeps on one small message per kind and version (thorough: three differently filled sets of messages)
+    for _ in range(1 if not chk.thorough else 3):
+        for ln, tg in W.gen_sweep(chk.rng):
+            cases.append(ln)
+            tags.append(tg)
     for i in range(n):
         ln, tg = W.gen_hostile(chk.rng)
         cases.append(ln)
         tags.append(tg)
-    chk.rule = ("hostile offsets-topic messages: 80% structure-aware (a small well-formed offset commit / group metadata message "
+    for i in range(nlarge):
+        ln, tg = W.gen_large(chk.rng)
+        cases.append(ln)
+        tags.append(tg)
+    chk.rule = ("hostile offsets-topic messages. (1) sweeps: for one small well-formed message per kind and version (offset key v0/v1 x "
+                "value v0/v1/v3, metadata value v0..v3 with two members) every truncation of key and of value at every byte "
+                "boundary, every version field over -1..5, every length / count field over the special values below computed "
+                "against both the enclosing assignment and the whole buffer. (2) random: 80% structure-aware (a small well-formed offset commit / group metadata message "
                 "of a random version, then truncated at a byte boundary, or a version field set to -1..5, or one or two length / "
                 "count fields set to -2,-1,0,1,remaining-1,remaining,remaining+1,remaining/4(+1),remaining/6(+1),32767,65536,2^24,"
-                "2^29,2^31-1,-2^31), 20% random bytes; each runs through the real processConsumerOffsetsMessage in a child process "
+                "2^29,2^31-1,-2^31), 20% random bytes. (3) large: 8-32 KiB metadata values in which a count / length promises far more "
+                "than is present, followed by filler (zero topics, named topics, a skipped subscription blob, random bytes, maximal "
+                "strings). Each runs through the real processConsumerOffsetsMessage in a child process "
                 "under ulimit -v 4 GiB (journal before execute; a dead child is an observation) and through the model; checked on "
-                "the implementation: no panic / death, TotalAlloc delta <= message size + 64 KiB, at most one update per commit "
+                "the implementation: no panic / death, TotalAlloc delta <= message size + 64 KiB (messages up to 4 KiB; larger ones, "
+                "which yield at most 50 requests: <= 1 MiB, the property's `never megabytes`), at most one update per commit "
                 "and only for a commit whose fields a strict reader finds complete, carrying exactly those fields; "
                 "non-trivial = the key carries a known version (0, 1 or 2), i.e. decoding goes past the dispatch; "
                 "distinct by the case line")
     impl, model, mism = chk.differential("wire", "wire", "TestVerifProbeWire", cases, name="hostile", project=W.project)
     verdicts = []
     max_over = None
+    max_large = 0
     for c, tg, a in zip(cases, tags, impl):
         if nontrivial(c):
             chk.nontrivial.add(C.case_hash(c))
@@ -79,11 +100,14 @@ def run(chk, failed):
         f = info.split()
         if len(f) >= 3 and f[0] == "A":
             over = int(f[1]) - int(f[2])
-            if max_over is None or over > max_over:
+            if int(f[2]) <= LARGE and (max_over is None or over > max_over):
                 max_over = over
+            if int(f[2]) > LARGE and len(reqs) <= 50:
+                max_large = max(max_large, int(f[1]))
         verdicts.append(oracle(c, a))
-    chk.notes.append("largest measured TotalAlloc delta minus message size over this run: %s bytes (bound %d)" % (max_over, BOUND_SLACK))
-    for i in (0, len(cases) // 3, 2 * len(cases) // 3, len(cases) - 1):
+    chk.notes.append("largest measured TotalAlloc delta minus message size over this run (messages <= %d bytes): %s bytes (bound %d); "
+                     "largest TotalAlloc delta on the large messages: %d bytes (bound %d)" % (LARGE, max_over, BOUND_SLACK, max_large, MEGABYTE))
+    for i in (0, len(cases) // 3, 2 * len(cases) // 3, len(cases) - 1 - nlarge):
         chk.sample({"case": cases[i][:500], "impl": impl[i][:500], "model": model[i][:500]})
     reported = 0
     # crash, allocation beyond the property's bound or an update for a malformed commit is directly the violation
@@ -112,7 +136,10 @@ def run(chk, failed):
         "module built like fixtureModule() with a nop logger; App.StorageChannel is buffered",
         "memory: the theorem bounds the sizes passed to make (process_alloc_bounded); the footprint of the Go runtime (map growth, "
         "timers of TimeoutSendStorageRequest, logger fields) is covered by the measured runtime.MemStats.TotalAlloc delta against "
-        "message size + 64 KiB on the generated messages (up to a few hundred bytes), not by proof",
+        "message size + 64 KiB on the generated messages up to 4 KiB and against 1 MiB on the 8-32 KiB ones, not by proof.  For "
+        "arbitrarily large messages the property's `tens of kilobytes` cannot hold of any decoder that builds Go values from the "
+        "message (a genuine 1 MB group-metadata message decodes into several MB of strings, map entries and requests); the theorem "
+        "gives the bound that does hold for every size: make sizes <= key + 9 x value",
         "a fatal runtime error (out of memory) cannot be recovered in Go: it is observed as the death of the child process",
     ]
 
